@@ -1,5 +1,285 @@
-"""Sensitivity battery (thorough tier): in-memory AST mutations of the current tree."""
+"""Sensitivity battery (thorough tier).
+
+Single-point edits of the current tree, applied as an in-memory overlay (nothing is executed, so no
+scratch copy is needed).  Every *mutant* must still parse and must be flagged by the intended rule;
+every *twin* (a behaviour-preserving rewrite of the same site) must stay silent.  The battery shows
+that the rules are not vacuous on today's code; a battery failure is an ANALYSIS-ERROR (exit 2),
+never a violation.  Edits are anchored on code fragments: when an anchor is not present in the tree
+under analysis (e.g. the tree was changed) the edit is reported as not applicable.
+"""
+
+from __future__ import annotations
+
+import ast
+import concurrent.futures as cf
+import os
+import re
+import time
+
+from . import AnalysisError
+
+_SPECS = []
 
 
-def run(prop, repo, ctx):
-    return 0
+def M(prop, name, rel, pattern, repl, expect, count=1, flags=0):
+    _SPECS.append({"prop": prop, "name": name, "rel": rel, "pattern": pattern, "repl": repl, "expect": expect, "twin": False, "count": count, "flags": flags})
+
+
+def T(prop, name, rel, pattern, repl, count=1, flags=0):
+    _SPECS.append({"prop": prop, "name": name, "rel": rel, "pattern": pattern, "repl": repl, "expect": None, "twin": True, "count": count, "flags": flags})
+
+
+F = "iodata/formats/"
+# ----------------------------------------------------------------------------- C01
+M("C01", "fchk-drop-signs", F + "fchk.py", r"coeffsa = data\.mo\.coeffsa\[permutation\] \* signs\.reshape\(-1, 1\)", "coeffsa = data.mo.coeffsa[permutation]", "C01-R1")
+M("C01", "molden-drop-permutation", F + "molden.py", r"data\.mo\.coeffsb\[permutation\] \* signs\.reshape\(-1, 1\)", "data.mo.coeffsb * signs.reshape(-1, 1)", "C01-R1")
+M("C01", "wfx-sign-before-index", F + "wfx.py", r"raw_coeffs = data\.mo\.coeffs\[permutation\] \* signs\.reshape\(-1, 1\)", "raw_coeffs = (data.mo.coeffs * signs.reshape(-1, 1))[permutation]", "C01-R1")
+M("C01", "molekel-swap-target-table", F + "molekel.py", r"permutation, signs = convert_conventions\(data\.obasis, CONVENTIONS\)", "permutation, signs = convert_conventions(data.obasis, HORTON2_CONVENTIONS)", "C01-R2")
+M("C01", "wfn-reversed-shell-loop", F + "wfn.py", r"for shell in data\.obasis\.shells:\n        for angmom, kind in zip", "for shell in reversed(data.obasis.shells):\n        for angmom, kind in zip", "C01-R3")
+M("C01", "wfn-source-conventions-scales", F + "wfn.py", r"obasis = MolecularBasis\(shells, CONVENTIONS, data\.obasis\.primitive_normalization\)", "obasis = MolecularBasis(shells, data.obasis.conventions, data.obasis.primitive_normalization)", "C01-R4")
+M("C01", "wfn-remove-pure-guard", F + "wfn.py", r"    for shell in data\.obasis\.shells:\n        if any\(kind != \"c\" for kind in shell\.kinds\):\n            raise PrepareDumpError\(\n                \"The WFN format only supports Cartesian MolecularBasis\.\", filename\n            \)\n", "", "C01-R6")
+M("C01", "molden-drop-aminusb-result", F + "molden.py", r"    data = prepare_unrestricted_aminusb\(data, allow_changes, filename, \"Molden\"\)", '    prepare_unrestricted_aminusb(data, allow_changes, filename, "Molden")', "C01-R6")
+M("C01", "molekel-grouping-spec", F + "molekel.py", r"\{c: \.12f\}", "{c: ,.12f}", "C01-R7")
+T("C01", "fchk-rename-locals", F + "fchk.py", r"\bpermutation\b", "perm_fchk", count=0)
+T("C01", "molekel-hoist-sign-column", F + "molekel.py", r"(    permutation, signs = convert_conventions\(data\.obasis, CONVENTIONS\)\n)", r"\1    signs = signs + 0\n", count=1)
+# ----------------------------------------------------------------------------- C02
+M("C02", "fchk-rename-label-writer", F + "fchk.py", r'_dump_real_arrays\("Mulliken Charges"', '_dump_real_arrays("Mulliken charges"', "C02-R2")
+M("C02", "fchk-unrequested-label", F + "fchk.py", r'            "NPA Charges",\n', "", "C02-R2")
+M("C02", "sdf-writer-drop-plus1", F + "sdf.py", r"\{iatom \+ 1:3d\}", "{iatom:3d}", "C02-R3")
+M("C02", "mol2-bondtype-offset", F + "sdf.py", r"\{bondtype:3d\}", "{bondtype + 1:3d}", "C02-R3")
+M("C02", "fcidump-writer-index-order", F + "fcidump.py", r"value = two_mo\[i0, i2, i1, i3\]", "value = two_mo[i0, i1, i2, i3]", "C02-R4")
+M("C02", "periodic-duplicate-symbol", "iodata/periodic.py", r'    27: "Co",', '    27: "C",', "C02-R5")
+M("C02", "poscar-independent-sequence", F + "poscar.py", r'print\(" "\.join\(f"\{\(data\.atnums == uatnum\)\.sum\(\):5d\}" for uatnum in uatnums\), file=f\)', 'print(" ".join(f"{(data.atnums == uatnum).sum():5d}" for uatnum in np.unique(data.atnums)), file=f)', "C02-R6")
+M("C02", "molekel-none-dict", F + "molekel.py", r"    if atcharges is not None:\n        result\[\"atcharges\"\] = atcharges\n", '    result["atcharges"] = atcharges\n', "C02-R7")
+M("C02", "fchk-runtype-upper", F + "fchk.py", r"items\[0\] = job_types\.get\(items\[0\], items\[0\]\.upper\(\)\)", "items[0] = items[0].upper()", "C02-R8")
+T("C02", "periodic-reorder-entries", "iodata/periodic.py", r'(    1: "H",\n)(    2: "He",\n)', r"\2\1")
+T("C02", "sdf-writer-commute-plus", F + "sdf.py", r"\{iatom \+ 1:3d\}", "{1 + iatom:3d}")
+# ----------------------------------------------------------------------------- C03
+M("C03", "pdb-shift-slice", F + "pdb.py", r"float\(line\[38:46\]\)", "float(line[39:46])", "C03-R2")
+M("C03", "pdb-split-instead-of-slice", F + "pdb.py", r"resnum = int\(line\[22:26\]\)", "resnum = int(line.split()[5])", "C03-R2")
+M("C03", "pdb-writer-width", F + "pdb.py", r"\{x:8\.3f\}\{y:8\.3f\}", "{x:9.3f}{y:8.3f}", "C03-R2")
+M("C03", "gaussianlog-swap-index-args", F + "gaussianlog.py", r"set_four_index_element\(result, i0, i2, i1, i3, value\)", "set_four_index_element(result, i0, i1, i2, i3, value)", "C03-R3")
+M("C03", "sdf-drop-minus1", F + "sdf.py", r"bonds\[ibond, 1\] = int\(words\[1\]\) - 1", "bonds[ibond, 1] = int(words[1])", "C03-R1")
+M("C03", "fchk-shell-map-no-offset", F + "fchk.py", r'shell_map = fchk\["Shell to atom map"\] - 1', 'shell_map = fchk["Shell to atom map"]', "C03-R1")
+M("C03", "fchk-triangle-run-length", F + "fchk.py", r"end = begin \+ irow \+ 1\n", "end = begin + irow\n", "C03-R4")
+M("C03", "fchk-pack-upper", F + "fchk.py", r"mat = arr\[np\.tril_indices\(arr\.shape\[0\]\)\]", "mat = arr[np.triu_indices(arr.shape[0])]", "C03-R4")
+M("C03", "gaussianlog-block-step", F + "gaussianlog.py", r"block_counter \+= 5", "block_counter += 4", "C03-R4")
+M("C03", "fchk-quadrupole-perm", F + "fchk.py", r"\[\[0, 3, 4, 1, 5, 2\]\]", "[[0, 3, 4, 1, 2, 5]]", "C03-R5")
+M("C03", "qchem-bad-perm", F + "qchemlog.py", r"\[\[0, 1, 3, 2, 4, 5\]\]", "[[0, 1, 3, 3, 4, 5]]", "C03-R5")
+T("C03", "pdb-reorder-independent-assignments", F + "pdb.py", r"(    occupancy = float\(line\[54:60\]\)\n)(    bfactor = float\(line\[60:66\]\)\n)", r"\2\1")
+T("C03", "sdf-commute-offset", F + "sdf.py", r"bonds\[ibond, 1\] = int\(words\[1\]\) - 1", "bonds[ibond, 1] = -1 + int(words[1])")
+# ----------------------------------------------------------------------------- C04
+M("C04", "gromacs-drop-factor", F + "gromacs.py", r"    pos \*= nanometer  # atom coordinates are in nanometers\n", "", "C04-R1")
+M("C04", "sdf-swap-unit", F + "sdf.py", r"atcoords\[iatom, 0\] = float\(words\[0\]\) \* angstrom", "atcoords[iatom, 0] = float(words[0]) * nanometer", "C04-R1")
+M("C04", "pdb-divide-instead", F + "pdb.py", r"float\(line\[30:38\]\) \* angstrom", "float(line[30:38]) / angstrom", "C04-R1")
+M("C04", "gromacs-scale-twice", F + "gromacs.py", r"    cell \*= nanometer\n", "    cell *= nanometer\n    cell *= nanometer\n", "C04-R1")
+M("C04", "locpot-drop-ev", F + "locpot.py", r'    result\["cube"\]\.data\[:\] \*= electronvolt\n', "", "C04-R1")
+M("C04", "fchk-masses-writer-inverted", F + "fchk.py", r"masses = data\.atmasses / amu", "masses = data.atmasses * amu", "C04-R2")
+M("C04", "xyz-column-dump-no-unit", F + "xyz.py", r'\(lambda value: f"\{value / angstrom:15\.10f\}"\)', '(lambda value: f"{value:15.10f}")', "C04-R1")
+M("C04", "utils-invert-constant", "iodata/utils.py", r'angstrom: float = spc\.angstrom / spc\.value\("atomic unit of length"\)', 'angstrom: float = spc.value("atomic unit of length") / spc.angstrom', "C04-R3")
+M("C04", "utils-wrong-codata-key", "iodata/utils.py", r'second: float = 1 / spc\.value\("atomic unit of time"\)', 'second: float = 1 / spc.value("atomic unit of length")', "C04-R3")
+T("C04", "gromacs-aug-to-plain", F + "gromacs.py", r"    cell \*= nanometer\n", "    cell = cell * nanometer\n")
+T("C04", "sdf-scale-after-loop", F + "sdf.py", r"atcoords\[iatom, 0\] = float\(words\[0\]\) \* angstrom\n        atcoords\[iatom, 1\] = float\(words\[1\]\) \* angstrom\n        atcoords\[iatom, 2\] = float\(words\[2\]\) \* angstrom\n        atnums\[iatom\] = sym2num\.get\(words\[3\]\.title\(\)\)\n", "atcoords[iatom, 0] = float(words[0])\n        atcoords[iatom, 1] = float(words[1])\n        atcoords[iatom, 2] = float(words[2])\n        atnums[iatom] = sym2num.get(words[3].title())\n    atcoords *= angstrom\n")
+# ----------------------------------------------------------------------------- C05
+M("C05", "cascade-delete-warn", F + "molden.py", r'        warn\(\n            LoadWarning\("Corrected for Turbomole errors in Molden/MKL file\.", lit\.filename\),\n            stacklevel=2,\n        \)\n', "", "C05-R4")
+M("C05", "cascade-accept-without-check", F + "molden.py", r"    if psi4_obasis is not None and _is_normalized_properly\(\n        psi4_obasis, atcoords, coeffsa, coeffsb, norm_threshold\n    \):", "    if psi4_obasis is not None:", "C05-R2")
+M("C05", "cascade-final-return", F + "molden.py", r"    raise LoadError\(\n        \"The molden or mkl file you are trying to load contains errors\. \"", '    return\n    raise LoadError(\n        "The molden or mkl file you are trying to load contains errors. "', "C05-R2")
+M("C05", "cascade-store-other-basis", F + "molden.py", r'        result\["obasis"\] = turbom_obasis', '        result["obasis"] = psi4_obasis', "C05-R2")
+M("C05", "fix-mutates-input", F + "molden.py", r"        fixed_shell = copy\.deepcopy\(shell\)\n        fixed_shells\.append\(fixed_shell\)\n        angmom = shell\.angmoms\[0\]\n        kind = shell\.kinds\[0\]\n        for iprim in range\(shell\.nexp\):", "        fixed_shell = shell\n        fixed_shells.append(fixed_shell)\n        angmom = shell.angmoms[0]\n        kind = shell.kinds[0]\n        for iprim in range(shell.nexp):", "C05-R6")
+M("C05", "psi4-factor-length", F + "molden.py", r"factors = np\.sqrt\(\[1\] \* 3 \+ \[3\] \* 3\)", "factors = np.sqrt([1] * 3 + [3] * 2)", "C05-R5")
+M("C05", "molekel-skip-cascade", F + "molekel.py", r"    _fix_molden_from_buggy_codes\(result, lit, norm_threshold\)\n    return result", "    return result", "C05-R1")
+T("C05", "cascade-rename-local", F + "molden.py", r"\bturbom_obasis\b", "tm_basis", count=0)
+# ----------------------------------------------------------------------------- C06
+M("C06", "tf3-flip-sign", "iodata/overlap_cartpure.py", r"\[0, 0, 0\.86602540378443865, 0, 0, 0, 0, -0\.86602540378443865, 0, 0\],", "[0, 0, -0.86602540378443865, 0, 0, 0, 0, 0.86602540378443865, 0, 0],", "C06-R1")
+M("C06", "tf2-change-digit", "iodata/overlap_cartpure.py", r"\[0\.86602540378443865, 0, 0, -0\.86602540378443865, 0, 0\],", "[0.86602540378443865, 0, 0, -0.86602541378443865, 0, 0],", "C06-R1")
+M("C06", "drop-l2-guard", "iodata/overlap.py", r'    if obasis0\.primitive_normalization != "L2":\n        raise ValueError\("The overlap integrals are only implemented for L2 normalization\."\)\n', "", "C06-R2")
+M("C06", "drop-reverse", "iodata/overlap.py", r"permutation0, signs0 = convert_conventions\(obasis0, OVERLAP_CONVENTIONS, reverse=True\)", "permutation0, signs0 = convert_conventions(obasis0, OVERLAP_CONVENTIONS)", "C06-R3")
+M("C06", "drop-row-signs", "iodata/overlap.py", r"overlap = overlap\[permutation0\] \* signs0\.reshape\(-1, 1\)", "overlap = overlap[permutation0]", "C06-R3")
+M("C06", "unconditional-symmetric-fill", "iodata/overlap.py", r"                if identical:\n                    # store upper triangular result\n                    overlap\[begin1:end1, begin0:end0\] = shell_overlap\.T", "                if True:\n                    # store upper triangular result\n                    overlap[begin1:end1, begin0:end0] = shell_overlap.T", "C06-R5")
+M("C06", "loose-screening", "iodata/overlap.py", r"if prefactor_max > 1e-15:", "if prefactor_max > 1e-8:", "C06-R6")
+T("C06", "rename-flag", "iodata/overlap.py", r"\bidentical\b", "same_basis", count=0)
+# ----------------------------------------------------------------------------- C07
+M("C07", "api-remove-exception-funnel", "iodata/api.py", r'        except StopIteration as exc:\n            raise LoadError\("File ended before all data was read\.", lit\) from exc\n        except Exception as exc:\n            raise LoadError\("Uncaught exception while loading file\.", lit\) from exc\n', '        except StopIteration as exc:\n            raise LoadError("File ended before all data was read.", lit) from exc\n', "C07-R1")
+M("C07", "api-construct-outside-try", "iodata/api.py", r"        try:\n            return IOData\(\*\*format_module\.load_one\(lit, \*\*kwargs\)\)\n        except LoadError:", "        try:\n            data = format_module.load_one(lit, **kwargs)\n        except LoadError:", "C07-R1")
+M("C07", "open-without-with", F + "json_qcschema.py", r"def load_one\(lit: LineIterator\) -> dict:\n    \"\"\"Do not edit this docstring\. It will be overwritten\.\"\"\"\n", 'def load_one(lit: LineIterator) -> dict:\n    """Do not edit this docstring. It will be overwritten."""\n    fh = open(lit.filename)\n', "C07-R2")
+M("C07", "loaderror-drop-file", F + "charmm.py", r'"Title section of CRD has no ending marker \(missing bare \*\)\.", lit\n', '"Title section of CRD has no ending marker (missing bare *)."\n', "C07-R3")
+M("C07", "loop-without-consumption", F + "wfn.py", r"    while len\(section\) < n:\n        line = next\(lit\)\n", "    line = next(lit)\n    while len(section) < n:\n", "C07-R4")
+M("C07", "drop-validator", "iodata/iodata.py", r"        validator=attrs\.validators\.optional\(validate_shape\(None, 4\)\),\n", "", "C07-R5")
+M("C07", "lineno-skip-on-stack", "iodata/utils.py", r"        self\.lineno \+= 1\n        return self\.stack\.pop\(\) if self\.stack else next\(self\.fh\)", "        if self.stack:\n            return self.stack.pop()\n        self.lineno += 1\n        return next(self.fh)", "C07-R6")
+T("C07", "rename-lit", "iodata/api.py", r"\blit\b", "line_iter", count=0)
+# ----------------------------------------------------------------------------- C08
+M("C08", "open-before-check", "iodata/api.py", r'    format_module = _select_format_module\(filename, "dump_one", fmt\)\n    try:\n        _check_required\(filename, data, format_module\.dump_one\)\n', '    format_module = _select_format_module(filename, "dump_one", fmt)\n    open(filename, "w").close()\n    try:\n        _check_required(filename, data, format_module.dump_one)\n', "C08-R1")
+M("C08", "drop-dump-funnel", "iodata/api.py", r'        except DumpError:\n            raise\n        except Exception as exc:\n            raise DumpError\("Uncaught exception while dumping to a file", filename\) from exc\n', "        except DumpError:\n            raise\n", "C08-R2")
+M("C08", "swallow-write-input", "iodata/api.py", r'            raise WriteInputError\(\n                "Uncaught exception while writing an input file\.", filename\n            \) from exc', "            pass", "C08-R2")
+M("C08", "later-frames-unchecked", "iodata/api.py", r"            _check_required\(filename, other, format_module\.dump_many\)\n", "", "C08-R3")
+M("C08", "required-removed", F + "cube.py", r'@document_dump_one\("Gaussian Cube", \["atcoords", "atnums", "cube"\]', '@document_dump_one("Gaussian Cube", ["atcoords", "atnums"]', "C08-R4")
+M("C08", "guard-wrong-error-class", F + "molden.py", r'raise PrepareDumpError\("The Molden format requires molecular orbitals\.", filename\)', 'raise DumpError("The Molden format requires molecular orbitals.", filename)', "C08-R5")
+M("C08", "dumperror-drop-file", F + "molekel.py", r'raise DumpError\("A spin must be specified", f\)', 'raise DumpError("A spin must be specified")', "C08-R6")
+T("C08", "rename-format-module", "iodata/api.py", r"\bformat_module\b", "fmt_mod", count=0)
+# ----------------------------------------------------------------------------- C09
+M("C09", "writer-store-into-extra", F + "wfx.py", r'(def dump_one\(f: TextIO, data: IOData\):\n    """Do not edit this docstring\. It will be overwritten\."""\n)', r'\1    data.extra["wfx_written"] = True\n', "C09-R1")
+M("C09", "writer-inplace-scale", F + "xyz.py", r"(def dump_one\(f: TextIO, data: IOData, atom_columns=None\):\n    \"\"\"Do not edit this docstring\. It will be overwritten\.\"\"\"\n)", r"\1    data.atcoords /= angstrom\n", "C09-R1")
+M("C09", "sort-caller-list", F + "molden.py", r"    for shell in sorted\(obasis\.shells, key=\(lambda s: s\.icenter\)\):", "    obasis.shells.sort(key=(lambda s: s.icenter))\n    for shell in obasis.shells:", "C09-R1")
+M("C09", "prepare-copy-instead-of-identity", "iodata/prepare.py", r'    if data\.mo\.kind == "unrestricted":\n        return data\n', '    if data.mo.kind == "unrestricted":\n        return attrs.evolve(data)\n', "C09-R2")
+M("C09", "prepare-drop-allow-changes-guard", "iodata/prepare.py", r'    if not allow_changes:\n        raise PrepareDumpError\(\n            message \+ "Set allow_changes to enable conversion to unrestricted\.", filename\n        \)\n', "", "C09-R3")
+M("C09", "prepare-drop-warning", "iodata/prepare.py", r'    warn\(\n        PrepareDumpWarning\(message \+ "The orbitals are converted to unrestricted", filename\),\n        stacklevel=2,\n    \)\n', "", "C09-R3")
+T("C09", "copy-then-mutate", F + "xyz.py", r"(def dump_one\(f: TextIO, data: IOData, atom_columns=None\):\n    \"\"\"Do not edit this docstring\. It will be overwritten\.\"\"\"\n)", r"\1    scratch = data.atcoords.copy()\n    scratch /= angstrom\n")
+T("C09", "new-dict-then-store", F + "wfx.py", r'(def dump_one\(f: TextIO, data: IOData\):\n    """Do not edit this docstring\. It will be overwritten\."""\n)', r'\1    extra = {**data.extra}\n    extra["wfx_written"] = True\n')
+# ----------------------------------------------------------------------------- C10
+M("C10", "table-delete-label", F + "molden.py", r'    \(2, "c"\): \["xx", "yy", "zz", "xy", "xz", "yz"\],', '    (2, "c"): ["xx", "yy", "zz", "xy", "xz"],', "C10-R1")
+M("C10", "table-duplicate-label", F + "wfn.py", r"    \(2, 'c'\): \['xx', 'yy', 'zz', 'xy', 'xz', 'yz'\],", "    (2, 'c'): ['xx', 'yy', 'zz', 'xy', 'xz', 'xz'],", "C10-R1")
+M("C10", "table-flip-sign", F + "molden.py", r'    \(2, "c"\): \["xx", "yy", "zz", "xy", "xz", "yz"\],', '    (2, "c"): ["xx", "yy", "zz", "-xy", "xz", "yz"],', "C10-R6")
+M("C10", "drop-duplicate-guard", "iodata/convert.py", r'    if len\(conv2\) != len\(set\(conv2\)\):\n        raise ValueError\("Argument conv2 contains duplicates\."\)\n', "", "C10-R2")
+M("C10", "offset-from-signs", "iodata/convert.py", r"offset = len\(permutation\)", "offset = len(signs) - 1", "C10-R4")
+M("C10", "drop-sign-product", "iodata/convert.py", r"signs = \[signs1\[i\] \* sign2 for i, sign2 in zip\(permutation, signs2\)\]", "signs = [sign2 for i, sign2 in zip(permutation, signs2)]", "C10-R3")
+M("C10", "index-wrong-direction", "iodata/convert.py", r"permutation = \[conv1\.index\(el2\) for el2 in conv2\]", "permutation = [conv2.index(el1) for el1 in conv1]", "C10-R3")
+T("C10", "table-reorder-entries", F + "wfn.py", r"(    \(0, 'c'\): \['1'\],\n)(    \(1, 'c'\): \['x', 'y', 'z'\],\n)", r"\2\1")
+# ----------------------------------------------------------------------------- C11
+M("C11", "drop-natom-validator", "iodata/iodata.py", r'    atmasses: Optional\[NDArray\[float\]\] = attrs\.field\(\n        default=None,\n        converter=convert_array_to\(float\),\n        validator=attrs\.validators\.optional\(validate_shape\("natom"\)\),', '    atmasses: Optional[NDArray[float]] = attrs.field(\n        default=None,\n        converter=convert_array_to(float),\n        validator=attrs.validators.optional(validate_shape(None)),', "C11-R1")
+M("C11", "natom-drop-branch", "iodata/iodata.py", r"        elif self\.atmasses is not None:\n            natom = len\(self\.atmasses\)\n", "", "C11-R1")
+M("C11", "setter-keep-charge", "iodata/iodata.py", r"                    self\._nelec = self\._atcorenums\.sum\(\) - self\._charge\n                self\._charge = None", "                    self._nelec = self._atcorenums.sum() - self._charge", "C11-R4")
+M("C11", "nelec-setter-writes-with-mo", "iodata/iodata.py", r'            raise TypeError\("nelec cannot be set when orbitals are present\."\)', "            self._nelec = nelec", "C11-R2")
+M("C11", "charge-getter-stored", "iodata/iodata.py", r"        return self\.atcorenums\.sum\(\) - self\.nelec", "        return self._charge", "C11-R3")
+M("C11", "postinit-skip-spinpol", "iodata/iodata.py", r"        if self\._spinpol is not None:\n            self\.spinpol = self\._spinpol\n", "", "C11-R5")
+T("C11", "natom-reorder-branches", "iodata/iodata.py", r"(        elif self\.atfrozen is not None:\n            natom = len\(self\.atfrozen\)\n)(        elif self\.atmasses is not None:\n            natom = len\(self\.atmasses\)\n)", r"\2\1")
+# ----------------------------------------------------------------------------- C12
+M("C12", "beta-slice-norbb", "iodata/orbitals.py", r"        return self\.energies\[self\.norba :\]", "        return self.energies[self.norbb :]", "C12-R3")
+M("C12", "remove-generalized-guard", "iodata/orbitals.py", r'    def irrepsb\(self\):\n        """Return beta irreps\."""\n        if self\.kind == "generalized":\n            raise NotImplementedError\n', '    def irrepsb(self):\n        """Return beta irreps."""\n', "C12-R2")
+M("C12", "setter-swap-difference", "iodata/orbitals.py", r"                occsa = np\.array\(self\.occsa\)\n                self\.occs = occsa \+ occsb\n                self\.occs_aminusb = occsa - occsb", "                occsa = np.array(self.occsa)\n                self.occs = occsa + occsb\n                self.occs_aminusb = occsb - occsa", "C12-R4")
+M("C12", "drop-norb-validator", "iodata/orbitals.py", r'    energies: Optional\[NDArray\[float\]\] = attrs\.field\(\n        default=None,\n        converter=convert_array_to\(float\),\n        validator=attrs\.validators\.optional\(validate_shape\("norb"\)\),', '    energies: Optional[NDArray[float]] = attrs.field(\n        default=None,\n        converter=convert_array_to(float),\n        validator=attrs.validators.optional(validate_shape(None)),', "C12-R1")
+M("C12", "nbasis-pure-count", "iodata/basis.py", r"                result \+= 2 \* angmom \+ 1", "                result += 2 * angmom - 1", "C12-R6")
+M("C12", "spinpol-no-abs", "iodata/orbitals.py", r"        return abs\(self\.occsa\.sum\(\) - self\.occsb\.sum\(\)\)", "        return self.occsa.sum() - self.occsb.sum()", "C12-R5")
+T("C12", "nbasis-commute", "iodata/basis.py", r"                result \+= 2 \* angmom \+ 1", "                result += 1 + angmom * 2")
+# ----------------------------------------------------------------------------- C13
+M("C13", "rewiden-handler", F + "xyz.py", r"        try:\n            line = next\(lit\)\n        except StopIteration:\n            return\n        if line\.strip\(\) == \"\":\n            return\n        lit\.back\(line\)\n        yield load_one\(lit, atom_columns\)", "        try:\n            line = next(lit)\n            if line.strip() == \"\":\n                return\n            lit.back(line)\n            yield load_one(lit, atom_columns)\n        except StopIteration:\n            return", "C13-R2")
+M("C13", "api-filter-frames", "iodata/api.py", r"            for data in format_module\.load_many\(lit, \*\*kwargs\):\n                yield IOData\(\*\*data\)", "            for data in format_module.load_many(lit, **kwargs):\n                if not data:\n                    continue\n                yield IOData(**data)", "C13-R1")
+M("C13", "dump-many-materialise", "iodata/api.py", r"    iter_data = iter\(iter_data\)\n", "    iter_data = iter(list(iter_data))\n", "C13-R4")
+M("C13", "dump-many-reversed", F + "sdf.py", r"    for data in datas:\n        dump_one\(f, data\)", "    for data in reversed(list(datas)):\n        dump_one(f, data)", "C13-R6")
+M("C13", "pdb-blank-line-ends", F + "pdb.py", r"    try:\n        while True:\n            yield load_one\(lit\)\n    except \(StopIteration, LoadError\):\n        return", "    try:\n        while True:\n            line = next(lit)\n            if line.strip() == \"\":\n                return\n            lit.back(line)\n            yield load_one(lit)\n    except (StopIteration, LoadError):\n        return", "C13-R7")
+T("C13", "xyz-rename", F + "xyz.py", r"\batom_columns\b", "columns", count=0)
+# ----------------------------------------------------------------------------- C14
+M("C14", "segmented-reversed", "iodata/convert.py", r"    for shell in obasis\.shells:\n        if \(shell\.ncon == 1\)", "    for shell in reversed(obasis.shells):\n        if (shell.ncon == 1)", "C14-R1")
+M("C14", "segmented-wrong-exponents", "iodata/convert.py", r"Shell\(shell\.icenter, \[angmom\], \[kind\], shell\.exponents, coeffs\.reshape\(-1, 1\)\)", "Shell(shell.icenter, [angmom], [kind], shell.exponents[::-1], coeffs.reshape(-1, 1))", "C14-R1")
+M("C14", "predicate-disagree", "iodata/prepare.py", r"shell\.ncon == 1 or \(keep_sp and shell\.ncon == 2 and \(shell\.angmoms == \[0, 1\]\)\.all\(\)\)", "shell.ncon <= 2 or (keep_sp and shell.ncon == 2 and (shell.angmoms == [0, 1]).all())", "C14-R2")
+M("C14", "unrestricted-swap-occs", "iodata/convert.py", r"np\.concatenate\(\[mo\.occsa, mo\.occsb\]\)", "np.concatenate([mo.occsb, mo.occsa])", "C14-R3")
+M("C14", "unrestricted-copy-not-identity", "iodata/convert.py", r'    if mo\.kind == "unrestricted":\n        return mo\n', '    if mo.kind == "unrestricted":\n        return attrs.evolve(mo)\n', "C14-R3")
+M("C14", "prepare-accept-generalized", "iodata/prepare.py", r'    if data\.mo\.kind == "generalized":\n        raise ValueError\("prepare_unrestricted_aminusb is not applicable to generalized orbitals\."\)\n', "", "C14-R4")
+T("C14", "rename-loop-var", "iodata/convert.py", r"for angmom, kind, coeffs in zip\(shell\.angmoms, shell\.kinds, shell\.coeffs\.T\):\n                shells\.append\(\n                    Shell\(shell\.icenter, \[angmom\], \[kind\], shell\.exponents, coeffs\.reshape\(-1, 1\)\)", "for angmom, kind, column in zip(shell.angmoms, shell.kinds, shell.coeffs.T):\n                shells.append(\n                    Shell(shell.icenter, [angmom], [kind], shell.exponents, column.reshape(-1, 1))")
+# ----------------------------------------------------------------------------- C16
+M("C16", "function-writes-table", F + "mol2.py", r"(def dump_one\(f: TextIO, data: IOData\):\n    \"\"\"Do not edit this docstring\. It will be overwritten\.\"\"\"\n)", r'\1    num2bond[99] = "xx"\n', "C16-R1")
+M("C16", "mutable-default", "iodata/convert.py", r"def convert_to_segmented\(obasis: MolecularBasis, keep_sp: bool = False\)", "def convert_to_segmented(obasis: MolecularBasis, keep_sp: bool = False, cache: dict = {})", "C16-R3")
+M("C16", "clock-in-writer", F + "xyz.py", r"(def dump_one\(f: TextIO, data: IOData, atom_columns=None\):\n    \"\"\"Do not edit this docstring\. It will be overwritten\.\"\"\"\n)", r"\1    import time\n    stamp = time.time()\n", "C16-R4")
+M("C16", "seterr-in-api", "iodata/api.py", r'(    format_module = _select_format_module\(filename, "load_one", fmt\)\n)', r'\1    import numpy as np\n    np.seterr(all="raise")\n', "C16-R5")
+M("C16", "conventions-store", "iodata/convert.py", r"(    permutation = \[\]\n    signs = \[\]\n    for shell in molbasis\.shells:)", r'    molbasis.conventions[(0, "c")] = ["1"]\n\1', "C16-R2")
+T("C16", "local-copy-of-table", F + "mol2.py", r"(def dump_one\(f: TextIO, data: IOData\):\n    \"\"\"Do not edit this docstring\. It will be overwritten\.\"\"\"\n)", r'\1    bond_names = {**num2bond, 99: "xx"}\n')
+# ----------------------------------------------------------------------------- C17
+M("C17", "misspell-declared-name", F + "cube.py", r'\["atcoords", "atcorenums", "atnums", "cellvecs", "cube"\]', '["atcoords", "atcorenum", "atnums", "cellvecs", "cube"]', "C17-R3")
+M("C17", "guaranteed-conditional", F + "poscar.py", r'        "cellvecs": cellvecs,\n    \}', '    }', "C17-R5")
+M("C17", "match-full-path", "iodata/api.py", r"fnmatch\(basename, pattern\)", "fnmatch(filename, pattern)", "C17-R1")
+M("C17", "explicit-format-no-op-check", "iodata/api.py", r'        if not hasattr\(format_module, attrname\):\n            raise FileFormatError\(f"Format \{fmt\} does not support feature \{attrname\}", filename\)\n', "", "C17-R1")
+M("C17", "shadowed-pattern", F + "qchemlog.py", r'PATTERNS = \["\*\.qchemlog"\]', 'PATTERNS = ["*.q.log"]', "C17-R2")
+M("C17", "unknown-result-key", F + "poscar.py", r'        "title": title,\n        "atcoords": atcoords,', '        "titel": title,\n        "atcoords": atcoords,', "C17-R4")
+T("C17", "reorder-declared-names", F + "poscar.py", r'\["atcoords", "atnums", "cellvecs", "title"\]', '["title", "atcoords", "cellvecs", "atnums"]')
+# ----------------------------------------------------------------------------- C18
+M("C18", "swap-formats", "iodata/__main__.py", r"dump_one\(load_one\(infn, fmt=infmt\), outfn, allow_changes=allow_changes, fmt=outfmt\)", "dump_one(load_one(infn, fmt=outfmt), outfn, allow_changes=allow_changes, fmt=infmt)", "C18-R1")
+M("C18", "drop-allow-changes", "iodata/__main__.py", r"dump_many\(load_many\(infn, fmt=infmt\), outfn, allow_changes=allow_changes, fmt=outfmt\)", "dump_many(load_many(infn, fmt=infmt), outfn, fmt=outfmt)", "C18-R1")
+M("C18", "negate-many", "iodata/__main__.py", r"    if many:\n", "    if not many:\n", "C18-R1")
+M("C18", "swallow-errors", "iodata/__main__.py", r"    args = parse_args\(\)\n    convert\(args\.input, args\.output, args\.many, args\.infmt, args\.outfmt, args\.allow_changes\)", "    args = parse_args()\n    try:\n        convert(args.input, args.output, args.many, args.infmt, args.outfmt, args.allow_changes)\n    except Exception:\n        pass", "C18-R3")
+M("C18", "main-swap-args", "iodata/__main__.py", r"convert\(args\.input, args\.output, args\.many, args\.infmt, args\.outfmt, args\.allow_changes\)", "convert(args.input, args.output, args.many, args.outfmt, args.infmt, args.allow_changes)", "C18-R2")
+T("C18", "keyword-call", "iodata/__main__.py", r"convert\(args\.input, args\.output, args\.many, args\.infmt, args\.outfmt, args\.allow_changes\)", "convert(args.input, args.output, many=args.many, infmt=args.infmt, outfmt=args.outfmt, allow_changes=args.allow_changes)")
+# ----------------------------------------------------------------------------- C19
+M("C19", "filter-atoms", "iodata/inputs/common.py", r"\[atom_line\(data, iatom\) for iatom in range\(data\.natom\)\]", "[atom_line(data, iatom) for iatom in range(data.natom) if data.atnums[iatom] > 0]", "C19-R1")
+M("C19", "multiply-angstrom", "iodata/inputs/orca.py", r"atcoord = data\.atcoords\[iatom\] / angstrom", "atcoord = data.atcoords[iatom] * angstrom", "C19-R2")
+M("C19", "truncate-charge", "iodata/inputs/common.py", r"int\(np\.round\(data\.charge\)\)", "int(data.charge)", "C19-R3")
+M("C19", "update-before-defaults", "iodata/inputs/gaussian.py", r'    fields = \{\n        "lot": data\.lot or "hf",', '    fields = {}\n    fields.update(kwargs)\n    fields = {\n        **fields,\n        "lot": data.lot or "hf",', "C19-R4")
+M("C19", "runtype-table", "iodata/inputs/gaussian.py", r'"energy_force": "force",', '"energy_force": "freq",', "C19-R5")
+M("C19", "swap-coordinates", "iodata/inputs/gaussian.py", r"\{atcoord\[0\]:10\.6f\} \{atcoord\[1\]:10\.6f\} \{atcoord\[2\]:10\.6f\}", "{atcoord[1]:10.6f} {atcoord[0]:10.6f} {atcoord[2]:10.6f}", "C19-R2")
+T("C19", "rint-rounding", "iodata/inputs/common.py", r"int\(np\.round\(data\.charge\)\)", "int(np.rint(data.charge))")
+# ----------------------------------------------------------------------------- C20
+M("C20", "remove-symmetric-assignment", "iodata/utils.py", r"    four_index_object\[i3, i0, i1, i2\] = value\n", "", "C20-R1")
+M("C20", "wrong-symmetric-assignment", "iodata/utils.py", r"    four_index_object\[i1, i0, i3, i2\] = value\n", "    four_index_object[i1, i0, i2, i3] = value\n", "C20-R1")
+M("C20", "strtobool-missing-word", "iodata/utils.py", r'    "on": True,\n', "", "C20-R2")
+M("C20", "volume-no-abs", "iodata/utils.py", r"return abs\(np\.linalg\.det\(cellvecs\)\)", "return np.linalg.det(cellvecs)", "C20-R3")
+M("C20", "checkdm-drop-upper", "iodata/utils.py", r'    if occupations\.max\(\) > occ_max \+ eps:\n        raise ValueError\(\n            "The density matrix has eigenvalues considerably larger than "\n            "max\. error=%e" % \(occupations\.max\(\) - 1\)\n        \)\n', "", "C20-R4")
+M("C20", "eigh-without-metric", "iodata/utils.py", r"evals, evecs = eigh\(sds, overlap\)", "evals, evecs = eigh(sds)", "C20-R5")
+T("C20", "reorder-assignments", "iodata/utils.py", r"(    four_index_object\[i2, i3, i0, i1\] = value\n)(    four_index_object\[i3, i2, i1, i0\] = value\n)", r"\2\1")
+T("C20", "reorder-strtobool", "iodata/utils.py", r'(    "y": True,\n)(    "yes": True,\n)', r"\2\1")
+
+
+def _run_one(args):
+    spec, repo = args
+    from .cli import run_property
+    from .report import load_known, match_known
+
+    t0 = time.time()
+    path = os.path.join(repo, spec["rel"])
+    try:
+        src = open(path, encoding="utf-8").read()
+    except OSError:
+        return spec, "not-applicable", "file missing", 0.0
+    new, n = re.subn(spec["pattern"], spec["repl"], src, count=spec["count"], flags=spec["flags"])
+    if n == 0 or new == src:
+        return spec, "not-applicable", "anchor not found", 0.0
+    try:
+        ast.parse(new)
+    except SyntaxError as exc:
+        return spec, "invalid", f"mutant does not parse: {exc}", 0.0
+    try:
+        ctx = run_property(spec["prop"], "quick", repo, overlay={spec["rel"]: new}, quiet=True)
+    except AnalysisError as exc:
+        return spec, ("analysis-error" if not spec["twin"] else "twin-analysis-error"), str(exc)[:200], time.time() - t0
+    known = load_known()
+    newf = [f for f in ctx.findings if match_known(f, known) is None]
+    rules = sorted({f"{f.prop}-{f.rule}" for f in newf})
+    dt = time.time() - t0
+    if spec["twin"]:
+        return spec, ("silent" if not newf else "twin-fired"), ", ".join(rules), dt
+    if spec["expect"] in rules:
+        return spec, "fired", ", ".join(rules), dt
+    if rules:
+        return spec, "fired-other-rule", ", ".join(rules), dt
+    return spec, "missed", "", dt
+
+
+def run(prop, repo, ctx=None, jobs=None):
+    """Run the battery of one property.  Returns (exit_code, summary dict)."""
+    specs = [s for s in _SPECS if s["prop"] == prop]
+    jobs = jobs or min(16, os.cpu_count() or 4)
+    results = []
+    with cf.ProcessPoolExecutor(max_workers=jobs) as ex:
+        for r in ex.map(_run_one, [(s, repo) for s in specs]):
+            results.append(r)
+    summary = {"mutants": 0, "fired": 0, "fired_other_rule": 0, "twins": 0, "silent": 0, "not_applicable": 0, "details": []}
+    bad = []
+    for spec, status, info, dt in results:
+        summary["details"].append({"name": spec["name"], "file": spec["rel"], "kind": "twin" if spec["twin"] else "mutant", "expect": spec["expect"], "status": status, "rules": info, "wall_s": round(dt, 2)})
+        if status == "not-applicable":
+            summary["not_applicable"] += 1
+            continue
+        if spec["twin"]:
+            summary["twins"] += 1
+            if status == "silent":
+                summary["silent"] += 1
+            else:
+                bad.append(f"twin {spec['name']} {status}: {info}")
+        else:
+            summary["mutants"] += 1
+            if status == "fired":
+                summary["fired"] += 1
+            elif status == "fired-other-rule":
+                summary["fired_other_rule"] += 1
+            else:
+                bad.append(f"mutant {spec['name']} {status} (expected {spec['expect']}): {info}")
+    print(f"  battery {prop}: {summary['fired']}/{summary['mutants']} mutants flagged by the intended rule"
+          f" (+{summary['fired_other_rule']} by another rule), {summary['silent']}/{summary['twins']} twins silent,"
+          f" {summary['not_applicable']} not applicable")
+    for b in bad:
+        print(f"  battery: {b}")
+    applicable = summary["mutants"] + summary["twins"]
+    code = 0
+    if bad:
+        code = 2
+    if applicable < max(1, len(specs) // 2):
+        print(f"  battery {prop}: only {applicable} of {len(specs)} edits are applicable to this tree")
+        code = 2
+    return code, summary
